@@ -59,6 +59,11 @@ impl Machine {
         } else {
             fill(&mut emu, 0x4000);
         }
+        // every other machine has an I/O extender installed that claims the ports with low byte 0xCC: a port cycle
+        // takes the same time whoever answers it
+        if seed % 2 == 1 {
+            emu.set_io_extender(VExt::new(vec![(0x00FF, 0x00CC)], 0x5A));
+        }
         let shadow: Vec<u8> = (0..0x10000u32).map(|a| emu.peek(a as u16)).collect();
         // everything must read Base now
         for a in 0..0x10000u32 {
@@ -333,6 +338,11 @@ pub fn run(args: &Args) {
             init.i = (addr_any(&mut r) >> 8) as u8;
             // port high byte for IN A,(n) / OUT (n),A
             init.af = (init.af & 0x00FF) | (addr_any(&mut r) & 0xFF00);
+            // half of the port instructions address a port with low byte 0xCC (claimed by the extender, where one is installed)
+            let port_cc = r.chance(1, 2);
+            if port_cc {
+                init.bc = (init.bc & 0xFF00) | 0x00CC;
+            }
             init.apply(m.emu.verif_cpu());
             // the instruction: page and opcode uniform; placed only when PC is in RAM
             if init.pc >= 0x4000 && init.pc < 0xFFF0 {
@@ -350,6 +360,7 @@ pub fn run(args: &Args) {
                 ];
                 let (page, op) = if r.chance(1, 3) { *r.pick(&SPECIAL) } else { (r.below(7), r.u8()) };
                 let bytes: Vec<u8> = match page {
+                    0 if port_cc && (op == 0xDB || op == 0xD3) => vec![op, 0xCC],
                     0 => vec![op],
                     1 => vec![0xCB, op],
                     2 => vec![0xED, op],
